@@ -108,13 +108,15 @@ def main(argv=None):
     if a.jobs <= 1 or len(jobs) <= 1:
         recs = [_worker(j) for j in jobs]
     else:
-        # import heavy modules once in the parent so that forked workers share them
+        # harness-level start-up validation (stub self-checks) runs in the parent; the workers come from a fork
+        # server that has only IMPORTED the heavy libraries (see symx/preload.py for why not a plain fork)
         try:
             mod.preload()
         except AttributeError:
             pass
-        ctx = mp.get_context("fork")
-        with ctx.Pool(min(a.jobs, len(jobs)), maxtasksperchild=8) as pool:
+        ctx = mp.get_context("forkserver")
+        ctx.set_forkserver_preload(["symx.preload"])
+        with ctx.Pool(min(a.jobs, len(jobs)), maxtasksperchild=16) as pool:
             for rec in pool.imap_unordered(_worker, jobs, chunksize=1):
                 recs.append(rec)
     recs.sort(key=lambda r: r["shape"])
